@@ -52,10 +52,24 @@ func c04Grid(seed uint64, tier string) []a2cfg {
 			}
 		}
 	}
+	// lane counts at and beyond the 8-bit boundaries of 4*lanes (uint8 arithmetic on the lane count must not wrap)
+	big := []uint8{64, 65}
+	if tier == "thorough" {
+		big = []uint8{63, 64, 65, 127, 128, 192, 255}
+	}
+	for i, p := range big {
+		out = append(out, a2cfg{i % 3, []int{0x13, 0x10}[i%2], r.bytes(r.intn(40)), r.bytes(8 + r.intn(24)), 1, 8*uint32(p) + uint32(i%2)*3, 32, p})
+	}
 	return out
 }
 
-func a2Key(c a2cfg) []byte {
+func a2Key(c a2cfg) (key []byte) {
+	defer func() {
+		if r := recover(); r != nil {
+			key = nil
+			notePanic("argon2crypto.Key", fmt.Sprintf("mode=%d version=%#x password_len=%d salt_len=%d time=%d memory=%d threads=%d keyLen=%d", c.mode, c.version, len(c.pw), len(c.salt), c.time, c.memory, c.threads, c.keyLen), r)
+		}
+	}()
 	return argon2crypto.Key(c.mode, c.version, c.pw, c.salt, c.time, c.memory, c.threads, c.keyLen)
 }
 
